@@ -85,7 +85,40 @@ func (s *Stream) groupFieldOutputName(gf string) string {
 	if a, ok := s.config.SelectAlias[gf]; ok && a != "" {
 		return a
 	}
+	// The parser prints a GROUP BY expression without blanks ("floor(v*0.1)") and a
+	// SELECT expression with its own spacing ("floor(v * 0.1)"): compare them with
+	// the blanks outside quotes removed.
+	if strings.Contains(gf, "(") {
+		want := squeezeExprBlanks(gf)
+		for e, a := range s.config.SelectAlias {
+			if a != "" && squeezeExprBlanks(e) == want {
+				return a
+			}
+		}
+	}
 	return s.stripJoinAlias(gf)
+}
+
+// squeezeExprBlanks removes the whitespace of an expression text that lies outside
+// quoted literals and backquoted identifiers.
+func squeezeExprBlanks(e string) string {
+	var b strings.Builder
+	var quote byte
+	for i := 0; i < len(e); i++ {
+		c := e[i]
+		switch {
+		case quote != 0:
+			if c == quote {
+				quote = 0
+			}
+		case c == '\'' || c == '"' || c == '`':
+			quote = c
+		case c == ' ' || c == '\t' || c == '\n' || c == '\r':
+			continue
+		}
+		b.WriteByte(c)
+	}
+	return b.String()
 }
 
 // isInternalAggPlaceholder reports whether a SelectFields key is an internal
